@@ -31,7 +31,7 @@ ACTIONS = [("DoSeedCompartment", "SeedAddCompartment"), ("DoSeedFlow", "SeedAddF
 
 CONSTS = {
     "quick": [
-        dict(Pool="{1, 2, 4}", MaxComps=3, MaxFlows=3, OutKinds="{1, 2}", FlowKinds="{3}", MaxOps=2, Thin=96, FullDepth=1, SeedThin=1, SeedThinFrom=9, SampleMod=24),
+        dict(Pool="{1, 2, 4}", MaxComps=3, MaxFlows=3, OutKinds="{1, 2}", FlowKinds="{3}", MaxOps=2, Thin=200, FullDepth=1, SeedThin=1, SeedThinFrom=9, SampleMod=48),
     ],
     "thorough": [
         # all 3-compartment digraphs over a 4-name pool, three operations deep
@@ -42,7 +42,7 @@ CONSTS = {
         dict(Pool="{1, 2, 5}", MaxComps=3, MaxFlows=3, OutKinds="{1}", FlowKinds="{1, 2, 3}", MaxOps=2, Thin=64, FullDepth=1, SeedThin=1, SeedThinFrom=9, SampleMod=32),
     ],
 }
-COV = dict(Pool="{1, 2}", MaxComps=2, MaxFlows=1, OutKinds="{1, 2}", FlowKinds="{3}", MaxOps=1, Thin=1, FullDepth=1, SeedThin=1, SeedThinFrom=9, SampleMod=1000003)
+COV = dict(Pool="{1, 2}", MaxComps=2, MaxFlows=1, OutKinds="{1, 2}", FlowKinds="{3}", MaxOps=1, Thin=4, FullDepth=0, SeedThin=1, SeedThinFrom=9, SampleMod=1000003)
 
 
 def _cfg(path, consts, seed):
@@ -487,7 +487,7 @@ def check_case(case, seed=0):
     def subs_case(label, sub, ren, kind):
         r = guarded(label, lambda: cs.subs(sub))
         if r is not None:
-            m = guarded(label, lambda: project(r, ren, what=label) or equations_of(r, ren, label))
+            m = guarded(label, lambda: project(r, ren, what=label) or (equations_of(r, ren, label) if kind != "rename" else None))
             if m:
                 bad("subs", "content_changed", m, sub=kind)
 
@@ -540,7 +540,7 @@ def main(tier: str, seed: int) -> int:
 
     rng = random.Random(seed)
     rng.shuffle(cases)
-    budget = {"quick": 1500, "thorough": 40000}[tier]
+    budget = {"quick": 600, "thorough": 40000}[tier]
     work = cases[:budget]
     chunks = [(work[i : i + 10], seed) for i in range(0, len(work), 10)]
     results = [r for ch in core.pmap(_replay_chunk, chunks, procs=16, chunk=1) for r in ch]
@@ -578,7 +578,7 @@ def main(tier: str, seed: int) -> int:
     if suppressed:
         v.notes.append(f"{suppressed} further violations not written as replay files (cap {MAX_REPORTED})")
         print(f"  ... and {suppressed} further violations beyond the first {MAX_REPORTED}")
-    return v.finish(min_traces=300)
+    return v.finish(min_traces=200)
 
 
 def replay(path: str) -> int:
